@@ -133,6 +133,23 @@ def _eliminate_returns(stmts, make_result):
     return out
 
 
+def _exprify(stmts, depth=0):
+    """the single expression a statement list of `if` / `return` computes (a conditional expression), or None"""
+    if not stmts or depth > 4:
+        return None
+    s = stmts[0]
+    if isinstance(s, ast.Return):
+        return s.value
+    if isinstance(s, ast.If):
+        rest = list(stmts[1:])
+        a = _exprify(list(s.body) + rest, depth + 1)
+        b = _exprify(list(s.orelse) + rest, depth + 1)
+        if a is None or b is None:
+            return None
+        return ast.copy_location(ast.IfExp(test=s.test, body=a, orelse=b), s)
+    return None
+
+
 class Flattener:
     def __init__(self, ix, fi, depth=0, stack=()):
         self.ix, self.fi, self.depth, self.stack = ix, fi, depth, stack
@@ -299,13 +316,14 @@ class Flattener:
                 if g is None:
                     return node
                 body = _strip_doc(g.body)
-                if len(body) != 1 or not isinstance(body[0], ast.Return) or body[0].value is None:
+                value = _exprify(body)
+                if value is None:
                     return node
                 b = outer.bind(g, node)
                 if b is None or b[0]:
                     return node         # would need prefix statements
                 outer.changed = True
-                return ast.copy_location(_Subst(b[1]).visit(copy.deepcopy(body[0].value)), node)
+                return ast.copy_location(_Subst(b[1]).visit(copy.deepcopy(value)), node)
 
         # only the expressions of this statement itself (not nested statement lists, they are visited by stmts())
         for fld, val in list(ast.iter_fields(s)):
